@@ -49,11 +49,8 @@ Section Extract.
        diag_idx = positions i with <match>(coords[axis1][i], coords[axis2][i], offset)
        pos_axes = diag_axes[:-1] + [<pos_axis>(axis1, axis2, offset)]
        COO([a.coords[axis][diag_idx] for axis in pos_axes], a.data[diag_idx], diag_shape, fill_value=...)
-     (a.shape[i] / a.coords[i] are Python indexing: negative i counts from the end, but the
-      comparison `axis != axis1` in diag_axes is on the raw numbers) *)
-  Definition coo_diagonal (fl : ctor_flags) (checks_zero : bool) (x : coo V)
-             (offset axis1 axis2 : Z) : res (coo V) :=
-    if checks_zero && negb (veqb (c_fill x) vzero) then Raise ValueError else
+     (the body after the axis normalisation; a.shape[i] / a.coords[i] are Python indexing) *)
+  Definition coo_diagonal_core (fl : ctor_flags) (x : coo V) (offset axis1 axis2 : Z) : res (coo V) :=
     let sh := c_shape x in
     d1 <- py_index sh axis1 ;;
     d2 <- py_index sh axis2 ;;
@@ -71,6 +68,16 @@ Section Extract.
     coo_ctor V veqb vadd (fl_sorted fl 0) (fl_has_duplicates fl 0) (fl_prune fl 0)
              (fill_of V vzero (fl_fill fl) (c_fill x)) dsh
              (map (fun e => map (py_nth (fst e)) pos_axes) es) (map snd es).
+
+  (* axis1 = normalize_axis(axis1, a.ndim); axis2 = normalize_axis(axis2, a.ndim);
+     if axis1 == axis2: raise ValueError; then the body above *)
+  Definition coo_diagonal (fl : ctor_flags) (checks_zero : bool) (ndim_expr : pyv -> res pyv)
+             (same_axis_guard : pyv -> pyv -> res pyv) (x : coo V) (offset axis1 axis2 : Z) : res (coo V) :=
+    if checks_zero && negb (veqb (c_fill x) vzero) then Raise ValueError else
+    a1 <- norm_axis ndim_expr axis1 (ndim_of V x) ;;
+    a2 <- norm_axis ndim_expr axis2 (ndim_of V x) ;;
+    _ <- same_axis_guard (VInt a1) (VInt a2) ;;
+    coo_diagonal_core fl x offset a1 a2.
 
   (* ---------------------------------------------------------------- diagonalize
        diag_shape = a.shape + (a.shape[axis],); diag_coords = vstack([a.coords, a.coords[axis]]) *)
@@ -116,11 +123,10 @@ Section Extract.
     Ok (mkCOO sh (map fst es) (map snd es) (c_fill x)).
 End Extract.
 
-(* ------------------------------------------------------------------ named domain clauses (true = inside the domain)
-   diagonal_nonsquare: the code requires a.shape[axis1] == a.shape[axis2] (documented ValueError), NumPy does not;
-   diagonal_negative_axis: the code does not normalise negative axes (wrong shape / values), NumPy does *)
-Definition diagonal_negative_axis (axis1 axis2 : Z) : bool := (0 <=? axis1) && (0 <=? axis2).
-Definition diagonal_nonsquare (sh : shape) (axis1 axis2 : Z) : bool := py_nth sh axis1 =? py_nth sh axis2.
+(* ------------------------------------------------------------------ named domain clause (true = inside the domain)
+   diagonal_nonsquare: the code requires a.shape[axis1] == a.shape[axis2] (documented ValueError), NumPy
+   returns the shorter diagonal; a1, a2 are the normalised axes *)
+Definition diagonal_nonsquare (sh : shape) (a1 a2 : nat) : bool := nth a1 sh 0 =? nth a2 sh 0.
 
 (* ------------------------------------------------------------------ instances for the source as it is now *)
 Definition triu_flags : ctor_flags :=
@@ -143,7 +149,8 @@ Section Instances.
   Definition coo_tril_src : coo V -> Z -> res (coo V) :=
     coo_tri V veqb vzero vadd site_tril_keep site_tril_ndim_guard tril_flags site_tril_checks_zero_fill.
   Definition coo_diagonal_src : coo V -> Z -> Z -> Z -> res (coo V) :=
-    coo_diagonal V veqb vzero vadd diagonal_flags site_diagonal_checks_zero_fill.
+    coo_diagonal V veqb vzero vadd diagonal_flags site_diagonal_checks_zero_fill site_diagonal_axis_ndim
+                 site_diagonal_same_axis_guard.
   Definition coo_diagonalize_src : coo V -> Z -> res (coo V) :=
     coo_diagonalize V veqb vzero vadd diagonalize_flags site_diagonalize_checks_zero_fill.
 End Instances.
